@@ -233,8 +233,8 @@ def openDatabase (cfg : Config) (file : Buf) : Py (Database × VersionIf) := do
       let rootTree ← getBTreeRoot v cfg.frames 1
       let ms ← parseMasterSchema v hdr.textEncoding rootTree
       let updated ← ms.pages.foldlM (fun u pn => listRemove u pn.1) updated
-      if ms.entries.isEmpty ∧ (hdr.schemaFormat ≠ 0 ∨ hdr.textEncoding ≠ 0) then .error .parseError
-      else
+      -- (no check of schema format / encoding against an empty schema: removed by a fix: commit)
+      do
         let db : Database := ⟨hdr, ps, dsize, hdr.textEncoding, fl, flNums, pm, rootTree, ms, updated⟩
         if cfg.storeInMemory then do
           let _ ← pagesCensus db v cfg.frames
